@@ -1052,7 +1052,7 @@ def r_wide_only_properties_reach_the_flags(ck, P, rid='C02-R24'):
                 continue
             mask = [int(a[1]) for a in x.a if a[0] == 'c'][0] & 0xffffffff
             cleared = ~mask & 0xffffffff
-            if not (cleared & STD):
+            if not (cleared & STD) or bin(cleared).count('1') > 4:          # flags &= ~(a few flag bits), not a field mask
                 continue
             for t, s_ in f.guard_edges(x.bb.id):
                 if not t.a:
